@@ -70,4 +70,80 @@ theorem rfc_other :
 
 end same
 
+/-! ### uniqueness of a key's entry in the projections -/
+
+theorem pair_unique {α β} (f : α → Nat) (g : α → β) (l : List α) (hn : (l.map f).Nodup) {k : Nat} {x y : β}
+    (hx : (k, x) ∈ l.map fun e => (f e, g e)) (hy : (k, y) ∈ l.map fun e => (f e, g e)) : x = y := by
+  simp only [List.mem_map, Prod.mk.injEq] at hx hy
+  obtain ⟨e1, h1, k1, rfl⟩ := hx
+  obtain ⟨e2, h2, k2, rfl⟩ := hy
+  rw [eq_of_nodup_map f l hn e1 h1 e2 h2 (by omega)]
+
+theorem Sk.qKC_unique {a : Sk} (hn : a.qK.Nodup) {k : Nat} {x y : Option Nat}
+    (hx : (k, x) ∈ a.qKC) (hy : (k, y) ∈ a.qKC) : x = y :=
+  pair_unique (fun e : QSk => e.key) (fun e : QSk => e.conn) a.qs hn hx hy
+theorem Sk.qKO_unique {a : Sk} (hn : a.qK.Nodup) {k : Nat} {x y : Owner}
+    (hx : (k, x) ∈ a.qKO) (hy : (k, y) ∈ a.qKO) : x = y :=
+  pair_unique (fun e : QSk => e.key) (fun e : QSk => e.owner) a.qs hn hx hy
+theorem Sk.qKQ_unique {a : Sk} (hn : a.qK.Nodup) {k : Nat} {x y : Nat}
+    (hx : (k, x) ∈ a.qKQ) (hy : (k, y) ∈ a.qKQ) : x = y :=
+  pair_unique (fun e : QSk => e.key) (fun e : QSk => e.qid) a.qs hn hx hy
+theorem Sk.cFQ_unique {a : Sk} (hn : (a.cFQ.map (·.1)).Nodup) {k : Nat} {x y : List Nat}
+    (hx : (k, x) ∈ a.cFQ) (hy : (k, y) ∈ a.cFQ) : x = y := by
+  refine pair_unique (fun c : CSk => c.fd) (fun c : CSk => c.queries) a.conns ?_ hx hy
+  have : a.cFQ.map (·.1) = a.conns.map fun c => c.fd := by
+    unfold Sk.cFQ; rw [List.map_map]; rfl
+  rwa [this] at hn
+
+theorem Sk.q?_mem_proj {a : Sk} {k : Nat} {e : QSk} (h : a.q? k = some e) :
+    (k, e.conn) ∈ a.qKC ∧ (k, e.owner) ∈ a.qKO ∧ (k, e.qid) ∈ a.qKQ ∧ k ∈ a.qK := by
+  obtain ⟨hm, rfl⟩ := Sk.q?_some h
+  exact ⟨List.mem_map.mpr ⟨e, hm, rfl⟩, List.mem_map.mpr ⟨e, hm, rfl⟩, List.mem_map.mpr ⟨e, hm, rfl⟩,
+    List.mem_map.mpr ⟨e, hm, rfl⟩⟩
+
+/-- a linked key is live -/
+theorem WfS.live_of_idx {a : Sk} {hole} (h : WfS a hole) {k : Nat} (hk : k ∈ a.idx) : ∃ e, a.q? k = some e := by
+  obtain ⟨p, hp, rfl⟩ := List.mem_map.mp hk
+  have := h.i.qidLive p hp
+  obtain ⟨e, he, hpe⟩ := List.mem_map.mp this
+  have hq := Sk.q?_of_mem (a := a) h.q.nodup he
+  simp only [Prod.mk.injEq] at hpe
+  rw [hpe.1] at hq
+  exact ⟨e, hq⟩
+
+section spec
+variable {a : Sk} {k : Nat} {e : QSk}
+
+theorem rfc_qKC (hq : a.q? k = some e) :
+    (a.removeFromConn k).qKC = a.qKC.map fun p => if p.1 == k then (p.1, none) else p := by
+  rw [Sk.removeFromConn_eq a k e hq]
+  show (Sk.modQ _ k fun e => { e with conn := none }).qKC = _
+  rw [qKC_modQ_conn]
+  cases e.conn <;> rfl
+
+theorem rfc_bt (hq : a.q? k = some e) : (a.removeFromConn k).byTimeout = a.byTimeout.erase k := by
+  rw [Sk.removeFromConn_eq a k e hq]
+theorem rfc_po (hq : a.q? k = some e) : (a.removeFromConn k).pendingOrder = a.pendingOrder.erase k := by
+  rw [Sk.removeFromConn_eq a k e hq]
+
+theorem rfc_cFQ (hq : a.q? k = some e) :
+    (a.removeFromConn k).cFQ = match e.conn with
+      | some fd => a.cFQ.map fun c => if c.1 == fd then (c.1, c.2.erase k) else c
+      | none => a.cFQ := by
+  rw [Sk.removeFromConn_eq a k e hq]
+  cases e.conn with
+  | none => rfl
+  | some fd => exact cFQ_modC_queries a fd (·.erase k)
+
+theorem rfc_cFUQ (hq : a.q? k = some e) :
+    (a.removeFromConn k).cFUQ = match e.conn with
+      | some fd => a.cFUQ.map fun c => if c.1 == fd then (c.1, c.2.1, c.2.2.erase k) else c
+      | none => a.cFUQ := by
+  rw [Sk.removeFromConn_eq a k e hq]
+  cases e.conn with
+  | none => rfl
+  | some fd => exact cFUQ_modC_queries a fd (·.erase k)
+
+end spec
+
 end Cares.Chan
